@@ -834,12 +834,12 @@ impl Component for Classifier {
                     Err(why) => mon.count(why),
                     Ok(trace) => {
                         mon.count("looptrace-scenario");
-                        mon.count(&format!("looptrace-reloads-sent-{}", trace.last().map(|t| t.reloads_sent).unwrap_or(0)));
-                        if trace.iter().any(|t| t.links.iter().any(|l| l.weak)) {
+                        mon.count(&format!("looptrace-reloads-sent-{}", trace.ticks.last().map(|t| t.reloads_sent).unwrap_or(0)));
+                        if trace.ticks.iter().any(|t| t.links.iter().any(|l| l.weak)) {
                             mon.count("looptrace-with-weak-verdict");
                             mon.nontrivial();
                         }
-                        verif_harness::looptrace::monitors_c17(&trace, &sc, mon);
+                        verif_harness::looptrace::monitors_c17(&trace.ticks, &sc, mon);
                     }
                 }
                 "looptrace-ok".into()
